@@ -11,7 +11,7 @@ _counter = [0]
 DTYPES = ['EInt', 'EString', 'EBoolean', 'EDouble', 'EJavaObject']
 
 
-def source(mm, style, modname, nsuri):
+def source(mm, style, modname, nsuri, falsy=False):
     L = ['from functools import partial',
          'import pyecore.ecore as Ecore',
          'from pyecore.ecore import *',
@@ -51,6 +51,11 @@ def source(mm, style, modname, nsuri):
                     ps = ', '.join(['self'] + [p['name'] if p['required'] else p['name'] + '=None' for p in opd['params']])
                     body.append(f"    def {opd['name']}({ps}):")
                     body.append('        return None')
+                if falsy:
+                    # instances that are FALSE in a boolean context (a class defining __bool__/__len__): the library must
+                    # test 'is None', never the truth value of a model object; dunder methods are not reflected
+                    body.append('    def __bool__(self):')
+                    body.append('        return False')
                 if style == 'meta':
                     body.append('    def __init__(self, **kwargs):')
                     body.append('        super().__init__()')
@@ -80,7 +85,7 @@ def source(mm, style, modname, nsuri):
     return '\n'.join(L) + '\n'
 
 
-def render(mm, style):
+def render(mm, style, falsy=False):
     """-> (module, {class name: python class}, nsURI)"""
     common.use_repo()
     _counter[0] += 1
@@ -88,7 +93,7 @@ def render(mm, style):
     nsuri = 'http://p'
     mod = types.ModuleType(modname)
     sys.modules[modname] = mod
-    src = source(mm, style, modname, nsuri)
+    src = source(mm, style, modname, nsuri, falsy=falsy)
     mod.__dict__['__source__'] = src
     exec(compile(src, modname, 'exec'), mod.__dict__)
     classes = {c['name']: mod.__dict__[c['name']] for c in mm['classes']}
